@@ -77,11 +77,12 @@ def gen_case(ctx, rng):
         else:
             x0, y0 = dq(-1, 3), dq(-1, 3)
             vs = [(x0, y0), (x0 + rng.randint(1, 5), y0), (x0 + rng.randint(1, 5), y0 + rng.randint(1, 5)), (x0, y0 + rng.randint(1, 5))]
-        p = {"xy_coords": vs}
+        # the vertex argument is documented as "(N,2) array_like": every container kind must mean the same polygon
+        p = {"xy_coords": vs, "_container": rng.choice(["list_of_tuples", "list_of_lists", "tuple_of_tuples", "ndarray", "ndarray"])}
     else:
         p = {"x1": dq(0, 6), "x2": dq(0, 6), "y1": dq(0, 6), "y2": dq(0, 6)}
         loc = None
-    return {"shape": kind, "params": p, "loc": loc, "data": data, "ranking": ranking}
+    return {"shape": kind, "params": p, "loc": loc, "data": data, "ranking": ranking, "_np_scalars": rng.random() < 0.25}
 
 
 def build_data(case):
@@ -111,6 +112,17 @@ def run_real(case):
         if case["shape"] == "cylinder":
             kw["Z_axis"] = "z"
     p = {k: v for k, v in case["params"].items() if not k.startswith("_")}
+    cont = case["params"].get("_container")
+    if cont == "list_of_lists":
+        p["xy_coords"] = [list(v) for v in p["xy_coords"]]
+    elif cont == "tuple_of_tuples":
+        p["xy_coords"] = tuple(tuple(v) for v in p["xy_coords"])
+    elif cont == "ndarray":
+        p["xy_coords"] = np.array([list(v) for v in p["xy_coords"]], dtype=float)
+    # scalar parameters as numpy scalars now and then (same numbers)
+    if case.get("_np_scalars"):
+        p = {k: (np.float64(v) if isinstance(v, float) else (np.int64(v) if isinstance(v, int) and not isinstance(v, bool) else v))
+             for k, v in p.items()}
     cls = {"circle": U.Circle, "ellipse": U.Ellipse, "cylinder": U.Cylinder, "parabola": U.Parabola, "polygon": U.Polygon, "line": U.Line}[case["shape"]]
     if case["shape"] == "cylinder":
         ax = p.pop("axis")
